@@ -20,6 +20,7 @@ mod p11;
 mod p12;
 mod p13;
 mod p14;
+mod p15;
 mod p16;
 mod p17;
 mod p18;
@@ -52,6 +53,7 @@ macro_rules! dispatch {
             "C11" => $f::<p11::C11>($($arg),*),
             "C12" => $f::<p12::C12>($($arg),*),
             "C13" => $f::<p13::C13>($($arg),*),
+            "C15" => $f::<p15::C15>($($arg),*),
             "C16" => $f::<p16::C16>($($arg),*),
             "C17" => $f::<p17::C17>($($arg),*),
             "C18" => $f::<p18::C18>($($arg),*),
